@@ -25,10 +25,10 @@ def canon_path(p, opfns):
                 ctx_term = "%s(%s)" % (name, ", ".join(e[2:]))
             elif name == "Vec::push" and len(e) == 4:
                 events.append(("push", e[3]))
-                coll = e[2]
+                coll = "push(%s, %s)" % (e[2], e[3])
             elif name == "BTreeMap::insert" and len(e) == 5:
                 events.append(("insert", e[3], e[4]))
-                coll = e[2]
+                coll = "insert(%s, %s, %s)" % (e[2], e[3], e[4])
             elif name in ("Vec::new", "BTreeMap::new"):
                 coll = coll or (name + "()")
             elif any(("ctx" == a or a.startswith("ctx") or "self." in a or "ev(" in a) for a in e[2:]) and not pure_helper(name):
